@@ -16,7 +16,8 @@
    C07_order_inv_partial. *)
 From AV Require Import Base.Bytes Base.Outcome Hash.HashModel Spec.SpecOps Spec.SpecReal Tree.Heap Tree.Ops Tree.Script Tree.Inv Tree.Range Tree.ValidSubs
   Tree.SpecWF Tree.SpecWFReal Tree.RangeProofsCalc Tree.RangeProofsOps Tree.RangeProofsLoader Tree.RangeProofsReal Tree.RangeProofsParser Tree.RangeProofsNamed Tree.CopyProofsDefs Tree.RangeProofsInv Tree.Project Tree.RangeProofsProject Tree.RangeProofsReload
-  Tree.CompatTyped Tree.CompatHist1 Tree.CompatHist4 Tree.RangeProofsAttach Tree.RangeProofsAttachCopy.
+  Tree.CompatTyped Tree.CompatHist1 Tree.CompatHist4 Tree.RangeProofsAttach Tree.RangeProofsAttachCopy
+  Tree.Serialize Tree.Files Tree.ProjectCanon Tree.RangeProofsReloadFile Tree.RangeProofsCanon.
 From AV Require Xml.Serializer Xml.StrictValidDef Xml.RoundTripFile.
 From AV Require Xml.Parser.
 Open Scope list_scope.
@@ -409,3 +410,66 @@ Theorem C07_copy_typed_loader_accepts :
   forall (fuel : nat) (i : id) (ni : node) (lt : etype),
     S' i -> w_nodes w' i = Some ni -> rel_ok T (snd lt) (snd (n_type ni)) = true -> LoaderWalk T fuel w' v i lt.
 Proof. exact copy_attach_walk. Qed.
+
+(* ------------------------------------------------------------------ the reload clause over the bytes ArxmlFile::serialize writes
+   (closes the two hypotheses C07_reload_clean_composed left open, as far as they follow from the world) *)
+
+(* [U] Tree/Project.v proj is agent-c10's projection (Tree/Files.v fproj) *)
+Theorem C07_proj_is_fproj :
+  forall (w : world) (ff : option N) (fuel : nat) (i : id), proj fuel w ff i = fproj fuel w ff i.
+Proof. exact proj_eq_fproj. Qed.
+
+(* [U] with C10_file_self_contained: the hypothesis "f_serialize writes serialize_file of the projection" is gone — the
+   statement is about the text f_serialize returns (set_version included).  Remaining: NoHollow (C10: an element all of whose
+   content belongs to other files is written as an empty element) and RootCanon of the projection. *)
+Theorem C07_reload_clean_file :
+  forall (strict : bool) (T : tables) (tab_el tab_at tab_en : nametab) (check_fn : N -> list N -> res bool)
+         (float_fmt : N -> list N) (float_parse : list N -> option N) (attr_schema_location : N) (ver : N),
+  SpecWF T ->
+  forall (w : world) (f : N) (text : list N) (w' : world),
+  f_serialize T tab_el tab_at tab_en check_fn float_fmt attr_schema_location f w = Val (OK text, w') ->
+  exists fl x, nth_opt (w_files w) (N.to_nat f) = Some fl /\ nth_opt (w_models w) (N.to_nat (f_model fl)) = Some x /\
+    forall t, proj (fuel_of w') w' (Some f) (m_root x) = Some t ->
+      WorldOK T check_fn ver w' (Some f) ->
+      NoHollow T w' (Some f) (m_root x) ->
+      RoundTripFile.RootCanon strict T tab_el tab_at tab_en check_fn float_fmt float_parse ver t ->
+      SVNR T check_fn ver t /\
+      exists st, Parser.load strict T tab_el tab_at tab_en check_fn float_parse text = Val (Parser.Ret t st) /\
+                 Parser.p_warnings st = [] /\ Parser.p_version st = ver /\ Parser.p_standalone st = f_standalone fl.
+Proof. exact reload_clean_file. Qed.
+
+(* [U] RootCanon of the projection from conditions on the WORLD: WorldOK supplies every structural premise of C01's Canon
+   (children resolve with their types, no choice conflict, multiplicities — read off the loader's own scan, which is silent on an
+   ordered child list —, SHORT-NAME where named); WorldCanon / RootHeader (Tree/ProjectCanon.v) are the value-level rest:
+   comments and names that read back, canonical value spellings, every REQUIRED attribute present (the complaint the property
+   allows lives here), non-blank text (finding string-blank-or-empty), the layout of the kept content, the header attributes
+   of the version (finding root-namespace-editable). *)
+Theorem C07_projection_canonical :
+  forall (strict : bool) (T : tables) (tab_el tab_at tab_en : nametab) (check_fn : N -> list N -> res bool)
+         (float_fmt : N -> list N) (float_parse : list N -> option N) (ver : N),
+  SpecWF T ->
+  forall (w : world) (ff : option N) (root : id),
+  WorldOK T check_fn ver w ff ->
+  WorldCanon T tab_el tab_at tab_en check_fn float_fmt float_parse ver w ff root ->
+  RootHeader strict T tab_el tab_at tab_en check_fn float_fmt float_parse ver w ff root ->
+  forall (fuel : nat) (t : Parser.etree), proj fuel w ff root = Some t ->
+  RoundTripFile.RootCanon strict T tab_el tab_at tab_en check_fn float_fmt float_parse ver t.
+Proof. exact proj_rootcanon. Qed.
+
+(* [U] the reload clause with hypotheses on the world only: what ArxmlFile::serialize writes for a file of a world that is
+   node-wise OK and canonical, loaded alone (strict or lenient), is exactly the file's projection, without any warning. *)
+Theorem C07_reload_clean_world :
+  forall (strict : bool) (T : tables) (tab_el tab_at tab_en : nametab) (check_fn : N -> list N -> res bool)
+         (float_fmt : N -> list N) (float_parse : list N -> option N) (attr_schema_location : N) (ver : N),
+  SpecWF T ->
+  forall (w : world) (f : N) (text : list N) (w' : world),
+  f_serialize T tab_el tab_at tab_en check_fn float_fmt attr_schema_location f w = Val (OK text, w') ->
+  exists fl x, nth_opt (w_files w) (N.to_nat f) = Some fl /\ nth_opt (w_models w) (N.to_nat (f_model fl)) = Some x /\
+    forall t, proj (fuel_of w') w' (Some f) (m_root x) = Some t ->
+      WorldOK T check_fn ver w' (Some f) ->
+      WorldCanon T tab_el tab_at tab_en check_fn float_fmt float_parse ver w' (Some f) (m_root x) ->
+      RootHeader strict T tab_el tab_at tab_en check_fn float_fmt float_parse ver w' (Some f) (m_root x) ->
+      NoHollow T w' (Some f) (m_root x) ->
+      exists st, Parser.load strict T tab_el tab_at tab_en check_fn float_parse text = Val (Parser.Ret t st) /\
+                 Parser.p_warnings st = [] /\ Parser.p_version st = ver /\ Parser.p_standalone st = f_standalone fl.
+Proof. exact reload_clean_world. Qed.
